@@ -228,10 +228,14 @@ def build(base, fault, d):
     return path
 
 
-def run_one(base, fault):
+def run_one(base, fault, d=None):
     from netCDF4 import Dataset
 
-    d = util.scratch("c20")
+    if d is None:
+        d = util.scratch("c20")
+    else:  # the same paths are re-used for the next set-up of this scenario: nothing may be remembered about the old files
+        for f in d.iterdir():
+            f.unlink()
     path = build(base, fault, d)
     events().clear()
     err = None
@@ -302,7 +306,8 @@ def run_case(base):
     outcomes = set()
     only = base.get("only")
     b = {k: base[k] for k in ("rev", "multi", "cont")}
-    err, started, nrec = run_one(b, "none")
+    dshared = util.scratch("c20")
+    err, started, nrec = run_one(b, "none", dshared)
     n += 1
     if err is not None or nrec < 2 or not started:
         viols.append(util.viol("base-scenario-broken", f"fault-free base {b} did not run: error={err} records={nrec} loop_started={started}", dict(b, only="none")))
@@ -312,7 +317,7 @@ def run_case(base):
             continue
         if fault.startswith("release:all-before-start") and b["cont"]:
             continue  # not a fault: a continuous release keeps releasing the rows of the latest file time before start
-        err, started, nrec = run_one(b, fault)
+        err, started, nrec = run_one(b, fault, dshared)
         n += 1
         nt += 1
         outcomes.add((fault.split(":")[0], (err or "none").split(":")[0]))
@@ -324,7 +329,6 @@ def run_case(base):
             viols.append(util.viol(f"refused-too-late:{fault}", f"{tag}: the error ({err}) came after the time loop had started (records: {nrec})", c))
         elif nrec > 0:
             viols.append(util.viol(f"records-written:{fault}", f"{tag}: {nrec} output records exist although the set-up was refused ({err})", c))
-        util.cleanup_scratch(keep_root=True)
     seen, uniq = set(), []
     for v in viols:
         if v["sig"] not in seen:
